@@ -152,6 +152,9 @@ def name_extends(culture, tokens, month, dow) -> bool:
         return True
 
 
+_TEMPLATE_TIME: dict = {}          # id(pattern) -> the time of day of the template value the driver gave it
+
+
 def fit_value(typ, tokens, v, pat, rnd):
     """Move a random value onto what the pattern can represent: every field the pattern does not capture takes the
     template's value and the fraction is cut to the pattern's precision (the round-trip law speaks about exactly these)."""
@@ -163,16 +166,17 @@ def fit_value(typ, tokens, v, pat, rnd):
 
     def fit_time(t: LocalTime) -> LocalTime:
         h, mi, sec, n = t.hour, t.minute, t.second, t.nanosecond_of_second
+        tt = _TEMPLATE_TIME.get(id(pat)) or LocalTime.midnight
         if not has("H", "HH"):
             if has("h", "hh"):
-                h = h if has("t", "tt") else h % 12
+                h = h if has("t", "tt") else h % 12 + 12 * (tt.hour // 12)
             else:
-                h = rnd.choice([0, 12]) if has("t", "tt") else 0
+                h = tt.hour % 12 + rnd.choice([0, 12]) if has("t", "tt") else tt.hour
         if not has("m", "mm"):
-            mi = 0
+            mi = tt.minute
         if not has("s", "ss"):
-            sec = 0
-        n -= n % 10 ** (9 - prec)
+            sec = tt.second
+        n = n - n % 10 ** (9 - prec) if prec else tt.nanosecond_of_second
         return LocalTime.from_hour_minute_second_nanosecond(h, mi, sec, n)
 
     def fit_date(d: LocalDate) -> LocalDate:
@@ -322,7 +326,7 @@ STANDARD_LETTERS = {"LocalTime": "tT", "LocalDate": "dDM", "LocalDateTime": "fFg
 
 def gen(args) -> list:
     seed, npat = args
-    from pyoda_time import AnnualDate, CalendarSystem
+    from pyoda_time import AnnualDate, CalendarSystem, LocalTime
 
     rnd = random.Random(seed)
     cals = [CalendarSystem.for_id(c) for c in CalendarSystem.ids]
@@ -330,6 +334,7 @@ def gen(args) -> list:
     flags = {id(c): culture_flags(c) for c in cults}
     seps = {id(c): culture_seps(c) for c in cults}
     evs = []
+    kept_patterns: list = []
     p_single: dict = {}
     for _ in range(npat):
         typ = rnd.choice(TYPES)
@@ -413,6 +418,16 @@ def gen(args) -> list:
                 if "yy" in tokens and typ in ("LocalDate", "LocalDateTime") and rnd.random() < 0.6:
                     yymax = rnd.choice([0, 10, 29, 30, 31, 50, 99, rnd.randint(0, 99)])
                     pat = pat.with_two_digit_year_max(yymax)
+                if typ in ("LocalTime", "LocalDateTime") and rnd.random() < 0.25:
+                    # another template value: fields the pattern does not capture are read back as the template's (an afternoon, a
+                    # non-zero minute, second and fraction)
+                    from pyoda_time import LocalDate as _LDt, LocalTime as _LTt
+
+                    ttv = rnd.choice([_LTt(18, 0), _LTt(13, 7, 9), _LTt.from_hour_minute_second_nanosecond(23, 59, 59, 999999999),
+                                      _LTt.from_hour_minute_second_nanosecond(5, 30, 15, 250000000), _LTt(12, 0)])
+                    pat = pat.with_template_value(ttv if typ == "LocalTime" else _LDt(2000, 1, 1).at(ttv))
+                    _TEMPLATE_TIME[id(pat)] = ttv
+                    kept_patterns.append(pat)           # (kept alive: the table is keyed by object identity)
         except Exception:  # noqa: BLE001 - not a valid pattern: C08's business
             continue
         for _v in range(4):
@@ -461,6 +476,8 @@ def gen(args) -> list:
                 dv = v.in_utc().date if typ == "Instant" else v.date if typ == "LocalDateTime" else v
                 if name_extends(culture, tokens, dv.month, dv.day_of_week.value if typ != "AnnualDate" else None):
                     ev["text_ok"] = False
+            if id(pat) in _TEMPLATE_TIME:
+                ev["ttemplate"] = fields("LocalTime", _TEMPLATE_TIME[id(pat)])
             if typ == "Duration":
                 ev["parts"] = fields("DurationParts", v)
             if typ == "Instant":
